@@ -2,8 +2,9 @@ FNS = ['fiber_cond_signal', 'fiber_cond_broadcast', 'fiber_cond_wait']
 WEAVE = [dict(file='src/fiber_cond.c', fns=FNS)]
 CAL = ['fiber_manager_get', 'fiber_mutex_lock', 'fiber_mutex_unlock', 'fiber_manager_wake_from_mpsc_queue', 'fiber_manager_wait_in_mpsc_queue_and_unlock']
 GROUPS = [dict(name=f.replace('fiber_cond_', ''), tu='cond.c', harness='h_' + f.replace('fiber_cond_', ''), mode='D', enforce=f, replace=CAL, replace_if_called=['fiber_mutex_trylock'], functions=[f]) for f in FNS] + [
+    dict(name='init', tu='cond.c', harness='h_init', mode='H', functions=['fiber_cond_init'], unwind=3, exact_unwind=True),
     dict(name='lemmas', tu='lemmas.c', kind='lemmas', harness='', no_native='pure lemma')]
 ASSUMPTIONS = ['A5 fewer than 2^30 registered waiters',
                'fiber_mutex_lock/unlock by the contract proved under C03; park-and-unlock / wake by the park layer contract (DESIGN.md 4.2: the mutex is released only after the waiter is enqueued and its context saved) TRUSTED here, enforced under C01']
 # obligation groups of other properties' specifications that this property also rests on (its anchors name those files); see DESIGN.md 11.2
-IMPORTS = [dict(prop='C01', groups=['wait_in_mpsc', 'wake_from_mpsc', 'maintenance', 'maintenance_migrating_unlock']), dict(prop='C03', groups=['lock', 'unlock_internal', 'unlock'])]
+IMPORTS = [dict(prop='C01', groups=['wait_in_mpsc', 'wake_from_mpsc', 'maintenance', 'maintenance_migrating_unlock']), dict(prop='C03', groups=['lock', 'unlock_internal', 'unlock', 'init'])]
